@@ -1044,3 +1044,111 @@ func inTrimOpaqueOK(c *Ctx, st *State, fn *ssa.Function, args []Value) (*State, 
 	defer func() { c.cfg.IntrinsicsOff = saved }()
 	return c.callFunction(st, fn, args)
 }
+
+// ---------------------------------------------------------------- sync.Map (a symbolic map kept in a side object)
+
+func init() {
+	intrinsics["(*sync.Map).Load"] = inSyncMapLoad
+	intrinsics["(*sync.Map).Store"] = inSyncMapStore
+	intrinsics["(*sync.Map).Delete"] = inSyncMapDelete
+	intrinsics["(*sync.Map).LoadOrStore"] = inSyncMapLoadOrStore
+	intrinsics["(*sync.Map).Range"] = inSyncMapRange
+}
+
+func (c *Ctx) syncMapRef(st *State, v Value) *MapRef {
+	p := ptrArg(c, st, v, "sync.Map")
+	if p == nil {
+		return nil
+	}
+	key := fmt.Sprintf("%d%v", p.obj, p.path)
+	id, ok := c.syncMaps[key]
+	if !ok {
+		id = c.newID()
+		c.syncMaps[key] = id
+		c.lazyGlobals = append(c.lazyGlobals, lazyGlobal{id, &Obj{v: &MapVal{}, label: "sync.Map", birth: id}})
+	}
+	if st.heap.get(id) == nil {
+		st.heap.set(id, &Obj{v: &MapVal{}, label: "sync.Map", birth: id})
+	}
+	return &MapRef{obj: id}
+}
+
+func inSyncMapLoad(c *Ctx, st *State, fn *ssa.Function, args []Value) (*State, Value) {
+	m := c.syncMapRef(st, args[0])
+	if m == nil {
+		return nil, nil
+	}
+	v, ok := c.mapLookup(st, m, args[1], &Iface{})
+	return st, &Tuple{v: []Value{v, ok}}
+}
+
+func inSyncMapStore(c *Ctx, st *State, fn *ssa.Function, args []Value) (*State, Value) {
+	m := c.syncMapRef(st, args[0])
+	if m == nil {
+		return nil, nil
+	}
+	c.mapUpdate(st, m, args[1], args[2])
+	return st, nil
+}
+
+func inSyncMapDelete(c *Ctx, st *State, fn *ssa.Function, args []Value) (*State, Value) {
+	m := c.syncMapRef(st, args[0])
+	if m == nil {
+		return nil, nil
+	}
+	c.mapDelete(st, m, args[1])
+	return st, nil
+}
+
+func inSyncMapLoadOrStore(c *Ctx, st *State, fn *ssa.Function, args []Value) (*State, Value) {
+	m := c.syncMapRef(st, args[0])
+	if m == nil {
+		return nil, nil
+	}
+	v, ok := c.mapLookup(st, m, args[1], args[2])
+	if !ok.IsTrue() {
+		// store only where absent: present entries keep their value (mapUpdate would overwrite), so add guarded
+		mv := c.mapVal(st, m)
+		n := &MapVal{entries: append(append([]MapEntry(nil), mv.entries...), MapEntry{k: args[1], v: args[2], present: c.tt.Not(ok)})}
+		c.setMapVal(st, m, n)
+	}
+	return st, &Tuple{v: []Value{v, ok}}
+}
+
+func inSyncMapRange(c *Ctx, st *State, fn *ssa.Function, args []Value) (*State, Value) {
+	m := c.syncMapRef(st, args[0])
+	if m == nil {
+		return nil, nil
+	}
+	f, ok := args[1].(*Func)
+	if !ok {
+		panic(engineErr("UNMODELLED sync.Map.Range with union func"))
+	}
+	n := len(c.mapVal(st, m).entries)
+	cur := st
+	for i := 0; i < n; i++ {
+		e := c.mapVal(cur, m).entries[i]
+		if e.present.IsFalse() {
+			continue
+		}
+		with := cur
+		var without *State
+		if !e.present.IsTrue() {
+			without = cur.fork()
+			without.pc = append(without.pc, c.tt.Not(e.present))
+			with.pc = append(with.pc, e.present)
+		}
+		ns, _ := c.callClosure(with, f, []Value{e.k, e.v}) // the callback's "continue" result is taken as true
+		switch {
+		case ns != nil && without != nil:
+			cur, _ = c.mergeStates(ns, without)
+		case ns != nil:
+			cur = ns
+		case without != nil:
+			cur = without
+		default:
+			return nil, nil
+		}
+	}
+	return cur, nil
+}
